@@ -20,6 +20,7 @@ final ghost state must equal what was observed.  Oracle: the four clauses of the
 observations only.
 """
 import os
+import re
 import shutil
 import sys
 import tempfile
@@ -29,9 +30,9 @@ import time
 import common as C
 
 PROPERTY = "C15"
-LEAN_MODULES = ["LccModel.Props.C15", "LccModel.Proto"]   # the last one: what drivers/C15.lean imports besides the model
-PROPS_FILES = ["LccModel/Props/C15.lean"]
-NAMESPACES = {"LccModel/Props/C15.lean": "LccModel.C15"}
+LEAN_MODULES = ["LccModel.Props.C15", "LccModel.Props.C15Validation", "LccModel.Proto"]   # the last one: what drivers/C15.lean imports besides the models
+PROPS_FILES = ["LccModel/Props/C15.lean", "LccModel/Props/C15Validation.lean"]
+NAMESPACES = {"LccModel/Props/C15.lean": "LccModel.C15", "LccModel/Props/C15Validation.lean": "LccModel.C15V"}
 DRIVER = "drivers/C15.lean"
 TRUSTED_BASE = [
     "Lean 4.33.0 kernel; axioms of the property theorems ⊆ {propext, Classical.choice, Quot.sound}",
@@ -40,6 +41,11 @@ TRUSTED_BASE = [
     "threading.local semantics (the slot of thread t is visible to t only) — trusted, validated by the streams, not proved",
     "atomicity of list.append and of one read/write of the thread-local attribute under the GIL; CPython pre-emption finer "
     "than a source line is not modelled",
+    "hand-written model LccModel/Model/Fixture.lean (check_dependencies / check_fixtures_in_suites, owned by C14) + Model/FixtureDecl.lean "
+    "(decorator rule, two-fixture registry); decision tables Generated/C15Tables.lean extracted by executing the real code, re-proved by decide",
+    "that test-scoped fixtures and test arguments are evaluated on the worker thread running the test, and session/suite-scoped fixture "
+    "parameters once by the thread running the set-up task, is observed on every real run (oracle), not proved here",
+    "object identity = Python `is`; a value several creations share (None, 0, '', False, ()) is attributed to the calling thread's own creation",
     "trace-inclusion harness harness/props/c15.py + harness/sched/c15sched.py + drivers/C15.lean (acceptor; the two unobservable "
     "internal steps slot-write/append are inserted before the thread's return, in the order of the observed _objects list)",
 ]
@@ -53,19 +59,81 @@ ASSUMPTIONS = [
     "the run-level clause 'torn down when the scope's teardown task runs, after all consumers' is C03's theorem; here it is the "
     "explicit precondition of the factory theorems and is checked on every real run by the oracle",
 ]
-RULE = ("C15.factory: 1..8 real threads × gets per thread × raising setup attempts × race mode (barrier / rendezvous inside "
+RULE = ("setup_object values are drawn from a class with falsy values ([], {}, set(), 0, 0.0, None, '', False, (), objects with "
+        "__bool__/__len__ false), singletons shared by several creations and equal-but-distinct values; objects are identified by "
+        "`is`.  C15.run projects declare fixtures WITH parameters in every dependency shape around per-thread fixtures (allowed and "
+        "forbidden) and go through the real PreparedProject.create; rejected projects count when the model predicts the verdict.  "
+        "C15.factory: 1..8 real threads × gets per thread × raising setup attempts × race mode (barrier / rendezvous inside "
         "setup_object / seeded line scheduler) × 0/1/2 teardown_factory calls × raising teardown_object calls at any position; non-trivial = ≥ 2 threads created an object, ≥ 2 "
         "gets returned, and two threads were inside get_object's creation window at the same time.  C15.run: real run_suites "
         "runs, 1..8 workers, 1..3 suites (one may be nested), session/suite × plain/generator per-thread fixtures, direct and "
         "via a test-scoped fixture; non-trivial = ≥ 2 worker threads consumed the same fixture instance set and ≥ 2 consumers.  "
         "distinct = hash of the case")
-EXPLANATION = ("All four clauses and the structure of _objects are Lean theorems over every interleaving of the source-line steps of "
+EXPLANATION = ("Validation side (LccModel.C15V): a project accepted by check_dependencies never has a non-test-scoped fixture — in "
+               "particular never a per-thread fixture — depending on a per-thread fixture, such a dependency is always rejected with a "
+               "ValidationError, a suite's own set-up never takes a per-thread fixture; the direct-dependency rule as a closed-form decision "
+               "table, re-extracted from the real decorator and the real check_dependencies on every run.  "
+               "All four clauses and the structure of _objects are Lean theorems over every interleaving of the source-line steps of "
                "get_object / teardown_factory for any number of threads; exactly-once teardown holds at full strength (raising "
                "teardown_object calls included) for the loop as repaired by /repo 8e1157b, and the first exception is re-raised "
                "after the loop (the old loop's defect D31 survives only as a *_legacy documentation theorem).  Every real trace is "
                "replayed step by step on the same transition function; the two D31 witnesses stay in the corpus and must pass.")
 
 SIG_D31 = "C15/teardown-raises-skips-remaining-instances"
+
+
+TABLE_OPENS = ("LccModel.Fixture",)
+_SCOPES = [("test", "Scope.test"), ("suite", "Scope.suite"), ("session", "Scope.session"), ("pre_run", "Scope.preRun")]
+
+
+def _lean_bool(b):
+    return "true" if b else "false"
+
+
+def _declare(name, params, scope, per_thread):
+    """`@lcc.fixture(scope=…, per_thread=…) def name(params…)` through the real decorator; None if it refuses"""
+    import lemoncheesecake.api as lcc
+    fn = _mkfunc(name, params, lambda **kw: None)
+    try:
+        return lcc.fixture(scope=scope, per_thread=per_thread)(fn)
+    except (AssertionError, ValueError):
+        return None
+
+
+def tables(ctx):
+    """decision tables of the per-thread rules, by executing the real decorator and the real check_dependencies"""
+    from lemoncheesecake.exceptions import ValidationError
+    from lemoncheesecake.fixture import BuiltinFixture, FixtureRegistry, load_fixtures_from_func
+
+    decl_rows, declarable = [], []
+    for scope, lscope in _SCOPES:
+        for pt in (False, True):
+            ok = _declare("x", [], scope, pt) is not None
+            decl_rows.append(("(%s, %s)" % (lscope, _lean_bool(pt)), _lean_bool(ok), {"scope": scope, "per_thread": pt, "accepted": ok}))
+            if ok:
+                declarable.append((scope, lscope, pt))
+    pair_rows = []
+    for fscope, lf, fpt in declarable:
+        for gscope, lg, gpt in declarable:
+            g = _declare("g", [], gscope, gpt)
+            f = _declare("f", ["g"], fscope, fpt)
+            registry = FixtureRegistry()
+            registry.add_fixture(BuiltinFixture("cli_args", []))
+            registry.add_fixture(BuiltinFixture("project_dir", "."))
+            for fn in (g, f):
+                registry.add_fixtures(load_fixtures_from_func(fn))
+            try:
+                registry.check_dependencies()
+                verdict = "accepted"
+            except ValidationError as e:
+                verdict = validation_verdict(e)
+            kind = verdict.split(":")[0]
+            lean_v = "Verdict." + (kind if kind in ("accepted", "perThreadDep", "scopeInversion") else "other")
+            pair_rows.append(("(%s, %s, %s, %s)" % (lf, _lean_bool(fpt), lg, _lean_bool(gpt)), lean_v,
+                              {"f": [fscope, fpt], "g": [gscope, gpt], "verdict": verdict}))
+    imp = ("LccModel.Model.FixtureDecl",)
+    return [C.Table("declTable", "List ((Scope × Bool) × Bool)", decl_rows, imports=imp),
+            C.Table("pairTable", "List ((Scope × Bool × Scope × Bool) × Verdict)", pair_rows, imports=imp)]
 
 
 class _Boom(Exception):
@@ -106,6 +174,53 @@ def _join_all(threads, timeout, what):
 # Stream 1: ThreadedFactory hammered directly
 # =================================================================================================
 
+# What `setup_object` returns.  The property speaks of OBJECTS (identity): a factory may hand out anything — an
+# initially empty per-thread buffer, a counter, None — so the values are drawn from a class that contains falsy
+# values, values that are equal to each other but distinct, and interned/singleton values (where two creations
+# return the very same Python object: then only the creation count, reuse and the number of teardown calls can
+# be observed).  The harness identifies a value by `is`, never by truthiness or `==`.
+class _Obj:
+    pass
+
+
+class _FalsyObj:
+    def __bool__(self):
+        return False
+
+
+class _Len0Obj:
+    def __len__(self):
+        return 0
+
+
+class _EqObj:
+    def __eq__(self, other):
+        return True
+
+    def __hash__(self):
+        return 7
+
+
+VALUE_MAKERS = {
+    "obj": _Obj, "falsy-obj": _FalsyObj, "len0-obj": _Len0Obj,
+    "empty-list": list, "empty-dict": dict, "empty-set": set, "zero-float": lambda: float("0.0"),
+    "zero": lambda: 0, "none": lambda: None, "empty-str": lambda: "", "false": lambda: False, "empty-tuple": lambda: (),
+    "eq-list": lambda: [7], "eq-obj": _EqObj, "eq-tuple": lambda: tuple([1, 2]), "eq-int": lambda: int("1000000"),
+}
+FALSY_KINDS = {"falsy-obj", "len0-obj", "empty-list", "empty-dict", "empty-set", "zero-float", "zero", "none", "empty-str",
+               "false", "empty-tuple"}
+SINGLETON_KINDS = {"zero", "none", "empty-str", "false", "empty-tuple"}     # every creation returns the same object
+EQUAL_KINDS = {"eq-list", "eq-obj", "eq-tuple", "eq-int", "empty-list", "empty-dict", "empty-set", "zero-float"}
+
+
+def gen_values(rng, k):
+    r = rng.random()
+    if r < 0.35:
+        return ["obj"] * k
+    if r < 0.6:
+        return [rng.choice(sorted(FALSY_KINDS))] * k          # every thread: the same falsy kind
+    return [rng.choice(sorted(VALUE_MAKERS)) for _ in range(k)]
+
 class Factory(C.Stream):
     name = "C15.factory"
     quick_cases = 900
@@ -135,12 +250,23 @@ class Factory(C.Stream):
         # teardown_factory called twice
         {"threads": 3, "mode": "line", "gets": [2, 1, 2], "raise_at": [[], [], []], "setup": ["none"] * 3,
          "delay": [0, 0, 0], "teardowns": 2, "td_raise_calls": [], "seed": 6},
+        # minimised failing input of the seeded change C15-1 (`getattr(self._local, "object", None) or …`): ONE thread,
+        # a falsy per-thread object (an initially empty buffer), two accesses
+        {"threads": 1, "mode": "free", "gets": [2], "raise_at": [[]], "setup": ["none"], "delay": [0], "teardowns": 1,
+         "td_raise_calls": [], "seed": 8, "values": ["empty-list"]},
+        # falsy / singleton / equal-but-distinct values, several accesses per thread, racing first accesses
+        {"threads": 4, "mode": "barrier", "gets": [3, 2, 4, 2], "raise_at": [[], [0], [], []], "setup": ["rendezvous"] * 4,
+         "delay": [0, 0, 0, 0], "teardowns": 1, "td_raise_calls": [1], "seed": 9, "values": ["none", "zero", "none", "empty-dict"]},
+        {"threads": 3, "mode": "line", "gets": [3, 3, 3], "raise_at": [[], [], [1]], "setup": ["none"] * 3,
+         "delay": [0, 0, 0], "teardowns": 1, "td_raise_calls": [], "seed": 10, "values": ["eq-list", "eq-list", "false"]},
+        {"threads": 3, "mode": "barrier", "gets": [2, 2, 2], "raise_at": [[], [], []], "setup": ["rendezvous"] * 3,
+         "delay": [0, 0, 0], "teardowns": 2, "td_raise_calls": [], "seed": 11, "values": ["empty-str", "eq-obj", "falsy-obj"]},
     ]
 
     def gen(self, rng, i):
         k = rng.choice([1, 2, 2, 3, 3, 4, 4, 5, 6, 8])
         mode = rng.choice(["barrier", "barrier", "line", "line", "line", "free"])
-        gets = [rng.choice([1, 1, 2, 2, 3, 4]) for _ in range(k)]
+        gets = [rng.choice([1, 2, 2, 3, 3, 4]) for _ in range(k)]
         raise_at = []
         for t in range(k):
             r = rng.random()
@@ -165,7 +291,8 @@ class Factory(C.Stream):
             if rng.random() < 0.2:
                 td_raise_calls = ["last"]
         return {"threads": k, "mode": mode, "gets": gets, "raise_at": raise_at, "setup": setup, "delay": delay,
-                "teardowns": teardowns, "td_raise_calls": td_raise_calls, "seed": rng.randrange(1 << 30)}
+                "teardowns": teardowns, "td_raise_calls": td_raise_calls, "seed": rng.randrange(1 << 30),
+                "values": gen_values(rng, k)}
 
     # ---- the real code ---------------------------------------------------------------------------
     def impl(self, case):
@@ -177,7 +304,7 @@ class Factory(C.Stream):
         k = case["threads"]
         lock = threading.Lock()
         trace = []
-        st = {"created": 0, "td_calls": 0}
+        st = {"created": 0, "td_calls": 0, "td_in_run": 0, "td_seen": set()}
         attempts = [0] * (k + 1)
         done_first = [False] * (k + 1)
         tags = {}
@@ -186,14 +313,30 @@ class Factory(C.Stream):
         def tag():
             return tags.get(threading.get_ident(), k)
 
-        class Obj:
-            __slots__ = ("n",)
+        kinds = list(case.get("values") or ["obj"] * k) + ["obj"]
+        made = []               # creation index n -> the value the n-th successful setup_object call returned (kept alive)
+        made_by = []            # creation index n -> creating thread
 
-            def __init__(self, n):
-                self.n = n
+        def token(x, t=None, skip=()):
+            """creation index of the value `x` — by IDENTITY.  Several creations may have returned the very same
+            object (None, 0, "", False, ()): then the latest creation of thread `t` itself, else the first other one."""
+            cands = [n for n, v in enumerate(made) if v is x and n not in skip]
+            if not cands:
+                return "?" + type(x).__name__
+            own = [n for n in cands if made_by[n] == t]
+            return own[-1] if own else cands[0]
 
-        def oid(x):
-            return x.n if isinstance(x, Obj) else "?" + type(x).__name__
+        appended = []           # tokens in the order of the observed `_objects.append` calls
+
+        class RecList(list):
+            """`self._objects` with the append made observable (who appended, in global order)"""
+
+            def append(self, x):
+                t = tag()
+                with lock:
+                    appended.append(token(x, t))
+                    trace.append(["append", t])
+                    list.append(self, x)
 
         mode = case["mode"]
         # a thread joins the rendezvous inside setup_object only if one of its attempts will succeed
@@ -227,11 +370,14 @@ class Factory(C.Stream):
                         time.sleep(0.002)
                     elif beh == "yield":
                         time.sleep(0)
+                value = VALUE_MAKERS[kinds[t]]()
                 with lock:
                     n = st["created"]
                     st["created"] += 1
+                    made.append(value)
+                    made_by.append(t)
                     trace.append(["create", t, n])
-                return Obj(n)
+                return value
 
             def teardown_object(self, obj):
                 t = tag()
@@ -239,11 +385,22 @@ class Factory(C.Stream):
                     i = st["td_calls"]
                     st["td_calls"] += 1
                     ok = not (i in td_raise or ("last" in td_raise and i == st["created"] - 1))
-                    trace.append(["td", t, oid(obj), ok])
+                    # the j-th call of a teardown_factory run tears down `_objects[j]`; a value that several creations
+                    # share is attributed by that position, anything else by identity
+                    j = st["td_in_run"]
+                    st["td_in_run"] += 1
+                    o = appended[j] if j < len(appended) and isinstance(appended[j], int) and made[appended[j]] is obj \
+                        else token(obj, None, skip=st["td_seen"])
+                    st["td_seen"].add(o)
+                    trace.append(["td", t, o, ok])
                 if not ok:
-                    raise _TdBoom(oid(obj))
+                    raise _TdBoom(o)
 
         f = F()
+        if type(getattr(f, "_objects", None)) is list and not f._objects:
+            f._objects = RecList()
+        else:
+            notes.add("objects-not-instrumented")
         sched = None
         if mode == "line" and k >= 1:
             sched = LineSched(lt.__file__, random.Random(case["seed"]), list(range(k)),
@@ -273,7 +430,7 @@ class Factory(C.Stream):
                             trace.append(["exc", t, type(e).__name__])
                     else:
                         with lock:
-                            trace.append(["ret", t, oid(o)])
+                            trace.append(["ret", t, token(o, t)])
             finally:
                 if sched is not None:
                     sched.leave(t)
@@ -283,10 +440,19 @@ class Factory(C.Stream):
             th.start()
         _join_all(ths, 30.0, "C15.factory")
         objs = getattr(f, "_objects", None)
-        snapshot = [oid(x) for x in objs] if isinstance(objs, list) else None
+        snapshot = None
+        if isinstance(objs, RecList) and len(objs) == len(appended) and all(
+                isinstance(n, int) and made[n] is x for n, x in zip(appended, objs)):
+            snapshot = list(appended)
+        elif isinstance(objs, list):
+            snapshot = [token(x) for x in objs]
+            if isinstance(objs, RecList):
+                notes.add("objects-differ-from-observed-appends")
         for _ in range(case["teardowns"]):
             with lock:
                 trace.append(["tdbegin", k])
+                st["td_in_run"] = 0
+                st["td_seen"] = set()
             try:
                 f.teardown_factory()
             except _TdBoom as e:       # teardown_factory re-raised the exception of teardown_object(e.oid)
@@ -404,6 +570,16 @@ class Factory(C.Stream):
             f.append("append-order-differs-from-creation-order")
         if max(case["gets"]) >= 2:
             f.append("repeated-get")
+        vals = case.get("values") or []
+        for t, kind in enumerate(vals):
+            if kind != "obj":
+                f.append("value:" + kind)
+            if case["gets"][t] >= 2 and kind in FALSY_KINDS:
+                f.append("falsy-object-accessed-again")
+            if kind in SINGLETON_KINDS and vals.count(kind) >= 2:
+                f.append("same-singleton-on-several-threads")
+            if kind in EQUAL_KINDS and vals.count(kind) >= 2:
+                f.append("equal-but-distinct-objects")
         f += ["note:" + n for n in obs["notes"]]
         return sorted(set(f))
 
@@ -417,7 +593,7 @@ class Factory(C.Stream):
             for drop in range(k):
                 c = dict(case)
                 c["threads"] = k - 1
-                for key in ("gets", "raise_at", "setup", "delay"):
+                for key in ("gets", "raise_at", "setup", "delay") + (("values",) if case.get("values") else ()):
                     c[key] = case[key][:drop] + case[key][drop + 1:]
                 c["td_raise_calls"] = [x for x in case["td_raise_calls"] if x == "last" or x < k - 1]
                 yield c
@@ -483,12 +659,31 @@ def _compare_factory(trace, snapshot, nthreads, ans, teardowns, label=""):
 # Stream 2: real runs with per-thread fixtures
 # =================================================================================================
 
-FIXTURES = {          # name -> (scope, generator?)
+FIXTURES = {          # name -> (scope, generator?)  — the per-thread fixtures without parameters
     "ps_plain": ("session", False),
     "ps_gen": ("session", True),
     "pu_plain": ("suite", False),
     "pu_gen": ("suite", True),
 }
+SHARED = {"sh_s": "session", "sh_u": "suite"}     # ordinary (not per-thread) fixtures without parameters
+_LEVEL = {"test": 1, "suite": 2, "session": 3, "pre_run": 4}
+
+
+def fxinfo(case):
+    """every fixture the generated project declares: name -> {scope, gen, pt, params}"""
+    info = {}
+    for fx in case["fixtures"]:
+        scope, is_gen = FIXTURES[fx]
+        info[fx] = {"scope": scope, "gen": is_gen, "pt": True, "params": []}
+        info["via_" + fx] = {"scope": "test", "gen": False, "pt": False, "params": [fx]}
+    for name in case.get("shared") or []:
+        info[name] = {"scope": SHARED[name], "gen": False, "pt": False, "params": []}
+    for d in case.get("extra") or []:
+        info[d["name"]] = {"scope": d["scope"], "gen": bool(d.get("gen")) and d["per_thread"], "pt": bool(d["per_thread"]),
+                           "params": list(d["params"])}
+        if d["per_thread"]:
+            info["via_" + d["name"]] = {"scope": "test", "gen": False, "pt": False, "params": [d["name"]]}
+    return info
 
 
 def _mkfunc(name, argnames, impl):
@@ -498,6 +693,33 @@ def _mkfunc(name, argnames, impl):
     kw = ", ".join("%s=%s" % (a, a) for a in argnames)
     exec("def %s(%s):\n    return _impl(%s)\n" % (name, args, kw), ns)
     return ns[name]
+
+
+def _mkgen(name, argnames, impl):
+    """same, for a generator fixture (`impl` is a generator function)"""
+    ns = {"_impl": impl}
+    args = ", ".join(argnames)
+    kw = ", ".join("%s=%s" % (a, a) for a in argnames)
+    exec("def %s(%s):\n    yield from _impl(%s)\n" % (name, args, kw), ns)
+    return ns[name]
+
+
+_RE_PT = re.compile(r"^Fixture '([^']*)' with scope '[^']*' is incompatible with per-thread fixture '([^']*)'$")
+_RE_SC = re.compile(r"^Fixture '([^']*)' with scope '[^']*' is incompatible with scope '[^']*' of fixture '([^']*)'$")
+_RE_SPT = re.compile(r"^Suite '([^']*)' uses per-thread fixture '([^']*)' which is not allowed$")
+_RE_SSC = re.compile(r"^Suite '([^']*)' uses fixture '([^']*)' which has an incompatible scope$")
+
+
+def validation_verdict(exc):
+    """canonical form of what the real validation said, in the vocabulary of drivers/C15.lean (None = accepted)"""
+    if exc is None:
+        return "accepted"
+    msg = str(exc)
+    for rx, kind in ((_RE_PT, "perThreadDep"), (_RE_SC, "scopeInversion"), (_RE_SPT, "suitePerThread"), (_RE_SSC, "suiteScope")):
+        m = rx.match(msg)
+        if m:
+            return "%s:%s:%s" % (kind, m.group(1), m.group(2))
+    return "other:" + type(exc).__name__ + ":" + msg[:100]
 
 
 class Run(C.Stream):
@@ -539,13 +761,92 @@ class Run(C.Stream):
              {"nested": False, "phases": [[{"uses": [["ps_gen", True], ["pu_plain", True]]}] * 3,
                                           [{"uses": [["pu_plain", False]]}]]},
          ]},
+        # minimised failing input of the seeded change C15-3 (check_dependencies lets a per-thread fixture depend on a
+        # per-thread fixture): REJECTED by the unchanged tree (perThreadDep), which the model predicts; where it is
+        # accepted the dependency is resolved once, by the thread running the session set-up, and that instance is
+        # handed to the dependent's function on every worker thread
+        {"nb_threads": 3, "mode": "chained", "fixtures": ["ps_plain"], "td_raise": None, "raise_setup": None, "shared": [],
+         "extra": [{"name": "d0", "scope": "session", "per_thread": True, "gen": False, "params": ["ps_plain"]}],
+         "suites": [{"nested": False, "phases": [[{"uses": [["d0", False]]}] * 3, [{"uses": [["d0", False], ["ps_plain", False]]}] * 3]}]},
+        # the allowed shapes around it: a per-thread fixture depending on shared (not per-thread) fixtures, a test-scoped
+        # fixture depending on per-thread fixtures and on another test-scoped fixture; a suite whose setup_suite uses a
+        # shared fixture
+        {"nb_threads": 3, "mode": "chained", "fixtures": ["ps_gen", "pu_plain"], "td_raise": None, "raise_setup": None,
+         "shared": ["sh_s", "sh_u"],
+         "extra": [{"name": "d0", "scope": "session", "per_thread": True, "gen": True, "params": ["sh_s"]},
+                   {"name": "d1", "scope": "suite", "per_thread": True, "gen": False, "params": ["sh_u", "sh_s"]},
+                   {"name": "d2", "scope": "test", "per_thread": False, "gen": False, "params": ["d0", "pu_plain"]},
+                   {"name": "d3", "scope": "test", "per_thread": False, "gen": False, "params": ["d2", "d1"]}],
+         "suites": [{"nested": False, "setup_uses": "sh_s",
+                     "phases": [[{"uses": [["d0", False], ["d3", False]]}] * 3, [{"uses": [["d1", True], ["d2", False]]}] * 3,
+                                [{"uses": [["d3", False], ["ps_gen", False]]}] * 2]},
+                    {"nested": True, "phases": [[{"uses": [["d1", False], ["d3", False]]}] * 3]}]},
+        # the other forbidden shapes: an ordinary session fixture depending on a per-thread one; a scope inversion; a
+        # suite whose setup_suite takes a per-thread fixture
+        {"nb_threads": 2, "mode": "chained", "fixtures": ["pu_gen"], "td_raise": None, "raise_setup": None, "shared": ["sh_u"],
+         "extra": [{"name": "d0", "scope": "suite", "per_thread": False, "gen": False, "params": ["pu_gen"]}],
+         "suites": [{"nested": False, "phases": [[{"uses": [["pu_gen", False]]}] * 2]}]},
+        {"nb_threads": 2, "mode": "chained", "fixtures": ["ps_plain"], "td_raise": None, "raise_setup": None, "shared": ["sh_u"],
+         "extra": [{"name": "d0", "scope": "session", "per_thread": True, "gen": False, "params": ["sh_u"]}],
+         "suites": [{"nested": False, "phases": [[{"uses": [["d0", False]]}] * 2]}]},
+        {"nb_threads": 2, "mode": "chained", "fixtures": ["pu_plain"], "td_raise": None, "raise_setup": None, "shared": [],
+         "extra": [], "suites": [{"nested": False, "setup_uses": "pu_plain", "phases": [[{"uses": [["pu_plain", False]]}] * 2]}]},
     ]
+
+    # ---- generator ----------------------------------------------------------------------------------
+    def _gen_extra(self, rng, fixtures):
+        """declared fixtures WITH parameters: every dependency shape around per-thread fixtures, allowed and forbidden"""
+        shared = sorted(rng.sample(sorted(SHARED), rng.choice([1, 2, 2])))
+        only_allowed = rng.random() < 0.55
+        extra, pt_names, test_names = [], list(fixtures), []
+        scope_of = {fx: FIXTURES[fx][0] for fx in fixtures}
+        scope_of.update({n: SHARED[n] for n in shared})
+        for i in range(rng.choice([1, 2, 2, 3, 4])):
+            name = "d%d" % i
+            allowed = ["test-on-pt", "test-on-pt", "pt-on-shared", "pt-on-shared"] + (["test-on-test"] if test_names else [])
+            forbidden = ["pt-on-pt", "pt-on-pt", "pt-on-pt", "plain-on-pt", "pt-on-narrower", "plain-on-narrower"]
+            shape = rng.choice(allowed if (only_allowed or any(e.get("forbidden") for e in extra)) else allowed + forbidden)
+            d = {"name": name, "gen": rng.random() < 0.4}
+            if shape == "test-on-pt":
+                d.update(scope="test", per_thread=False, params=sorted(rng.sample(pt_names, min(len(pt_names), rng.choice([1, 1, 2])))))
+            elif shape == "test-on-test":
+                d.update(scope="test", per_thread=False, params=[rng.choice(test_names)] + ([rng.choice(pt_names)] if rng.random() < 0.4 else []))
+            elif shape == "pt-on-shared":
+                dep = rng.choice(shared)
+                scope = "suite" if scope_of[dep] == "suite" else rng.choice(["session", "suite"])
+                d.update(scope=scope, per_thread=True, params=[dep])
+            elif shape in ("pt-on-pt", "plain-on-pt"):
+                dep = rng.choice(pt_names)
+                # no scope inversion on top: the dependent is not wider than what it depends on
+                scope = "suite" if scope_of[dep] == "suite" else rng.choice(["session", "suite"])
+                d.update(scope=scope, per_thread=(shape == "pt-on-pt"), params=[dep], forbidden=True)
+            else:
+                cands = [n for n in shared if scope_of[n] == "suite"]
+                if not cands:
+                    shared.append("sh_u")
+                    shared.sort()
+                    scope_of["sh_u"] = "suite"
+                d.update(scope="session", per_thread=(shape == "pt-on-narrower"), params=["sh_u"], forbidden=True)
+            extra.append(d)
+            scope_of[name] = d["scope"]
+            if d["per_thread"]:
+                pt_names.append(name)
+            elif d["scope"] == "test":
+                test_names.append(name)
+        for d in extra:
+            d.pop("forbidden", None)
+        return shared, extra
 
     def gen(self, rng, i):
         nb = rng.choice([1, 2, 2, 3, 3, 4, 4, 5, 6, 8])
         mode = "chained" if rng.random() < 0.75 else "free"
         nfx = rng.choice([1, 1, 2, 2, 3, 4])
         fixtures = sorted(rng.sample(sorted(FIXTURES), nfx))
+        shared, extra = [], []
+        if rng.random() < 0.45:
+            shared, extra = self._gen_extra(rng, fixtures)
+        usable_pt = fixtures + [d["name"] for d in extra if d["per_thread"]]
+        usable_test = [d["name"] for d in extra if d["scope"] == "test"]
         nsuites = rng.choice([1, 1, 2, 2, 3])
         suites = []
         for si in range(nsuites):
@@ -556,11 +857,19 @@ class Run(C.Stream):
                 size = min(size, 6)
                 tests = []
                 for _ in range(size):
-                    n_use = rng.choice([1, 1, 2]) if len(fixtures) > 1 else 1
-                    uses = [[fx, rng.random() < 0.35] for fx in sorted(rng.sample(fixtures, min(n_use, len(fixtures))))]
+                    n_use = rng.choice([1, 1, 2]) if len(usable_pt) > 1 else 1
+                    uses = [[fx, rng.random() < 0.35] for fx in sorted(rng.sample(usable_pt, min(n_use, len(usable_pt))))]
+                    if usable_test and rng.random() < 0.6:
+                        uses.append([rng.choice(usable_test), False])
                     tests.append({"uses": uses})
                 phases.append(tests)
-            suites.append({"nested": si > 0 and rng.random() < 0.3 and not suites[si - 1]["nested"], "phases": phases})
+            sd = {"nested": si > 0 and rng.random() < 0.3 and not suites[si - 1]["nested"], "phases": phases}
+            if extra and rng.random() < 0.25:
+                # the suite's own setup_suite takes a fixture: a shared one (allowed), rarely a per-thread / test-scoped one
+                r = rng.random()
+                sd["setup_uses"] = rng.choice(shared) if (r < 0.8 or not usable_test) and shared else \
+                    rng.choice(usable_pt if r < 0.9 or not usable_test else usable_test)
+            suites.append(sd)
         gens = [fx for fx in fixtures if FIXTURES[fx][1]]
         td_raise = None
         if gens and rng.random() < 0.3:
@@ -570,20 +879,52 @@ class Run(C.Stream):
         if rng.random() < 0.12:
             # the first attempt(s) of every thread raise; later tests on the thread retry (D3 path, repaired by f2606d5)
             raise_setup = {"fixture": rng.choice(fixtures), "attempts": [0] if rng.random() < 0.8 else [0, 1]}
-        return {"nb_threads": nb, "mode": mode, "fixtures": fixtures, "td_raise": td_raise, "raise_setup": raise_setup,
+        case = {"nb_threads": nb, "mode": mode, "fixtures": fixtures, "td_raise": td_raise, "raise_setup": raise_setup,
                 "suites": suites}
+        if extra:
+            case["shared"], case["extra"] = shared, extra
+        return case
+
+    # ---- what the project declares, for the model ------------------------------------------------------
+    @staticmethod
+    def _decls(case):
+        return [{"names": [n], "scope": m["scope"], "per_thread": m["pt"], "params": m["params"]} for n, m in fxinfo(case).items()]
+
+    @staticmethod
+    def _suite_shapes(case):
+        """the suite tree as `check_fixtures_in_suites` sees it (paths, setup_suite arguments, test arguments)"""
+        top, prev_top = [], None
+        for si, sdesc in enumerate(case["suites"]):
+            nested = bool(sdesc["nested"] and prev_top is not None)
+            path = (prev_top["path"] + "." if nested else "") + "s%d" % si
+            tests = []
+            for pi, phase in enumerate(sdesc["phases"]):
+                for ti, tdesc in enumerate(phase):
+                    info = fxinfo(case)
+                    args = [("via_" + fx if via and info.get(fx, {}).get("pt") else fx) for fx, via in tdesc["uses"]]
+                    tests.append({"path": "%s.t%d_%d_%d" % (path, si, pi, ti), "args": args, "parameters": [], "disabled": False})
+            node = {"path": path, "disabled": False, "injected": [], "setup_args": [sdesc["setup_uses"]] if sdesc.get("setup_uses") else [],
+                    "tests": tests, "subs": []}
+            if nested:
+                prev_top["subs"].append(node)
+            else:
+                top.append(node)
+                prev_top = node
+        return top
 
     # ---- the real code ---------------------------------------------------------------------------
     def impl(self, case):
         import lemoncheesecake.api as lcc
         from lemoncheesecake import runner
         from lemoncheesecake.events import AsyncEventManager
-        from lemoncheesecake.fixture import FixtureRegistry, load_fixtures_from_func
+        from lemoncheesecake.exceptions import ValidationError
+        from lemoncheesecake.fixture import load_fixtures_from_func
+        from lemoncheesecake.project import PreparedProject, Project
         from lemoncheesecake.session import Session
-        from lemoncheesecake.suite import resolve_tests_dependencies
         from lemoncheesecake.suite.core import Suite, Test
 
         nb = case["nb_threads"]
+        info = fxinfo(case)
         lock = threading.Lock()
         trace = []
         tids = {}
@@ -603,19 +944,21 @@ class Run(C.Stream):
                 trace.append(list(ev[:1]) + [tid()] + list(ev[1:]))
 
         class Inst:
-            def __init__(self, n, key):
-                self.n, self.key = n, key
+            """the value a generated fixture function returns: remembers what it is and what it was given"""
+
+            def __init__(self, n, key, fx, pt, params):
+                self.n, self.key, self.fx, self.pt, self.params = n, key, fx, pt, params
 
         def ident(x):
             return x.n if isinstance(x, Inst) else "?" + type(x).__name__
 
         def key_of(fx):
-            scope = FIXTURES[fx][0]
+            scope = info[fx]["scope"]
             return fx + "@" + ("session" if scope == "session" else getattr(cur, "suite", "?"))
 
         rs = case.get("raise_setup")
 
-        def create(fx):
+        def create(fx, params):
             key = key_of(fx)
             with lock:
                 t = tid()
@@ -629,7 +972,14 @@ class Run(C.Stream):
                 n = st["n"]
                 st["n"] += 1
                 trace.append(["create", tid(), key, n])
-            return Inst(n, key)
+            return Inst(n, key, fx, True, params)
+
+        def plain(fx, params):
+            with lock:
+                n = st["n"]
+                st["n"] += 1
+                trace.append(["mk", tid(), fx, n])
+            return Inst(n, fx, fx, False, params)
 
         def teardown(inst):
             fx = inst.key.split("@")[0]
@@ -642,25 +992,53 @@ class Run(C.Stream):
             if not ok:
                 raise _TdBoom(inst.n)
 
-        fixture_funcs = []
-        for fx in case["fixtures"]:
-            scope, is_gen = FIXTURES[fx]
-            if is_gen:
-                def fn(fx=fx):
-                    inst = create(fx)
+        def make_fixture(name):
+            meta = info[name]
+            is_via = name.startswith("via_")
+            on_test_thread = meta["scope"] == "test" or meta["pt"]     # where the code as it is evaluates the function
+
+            def received(kw):
+                # a per-thread instance handed to this fixture function as a parameter, on the thread that runs the function
+                for p in meta["params"]:
+                    v = kw[p]
+                    if isinstance(v, Inst) and v.pt:
+                        key = key_of(p) if on_test_thread else v.key
+                        rec("use", key, v.n, getattr(cur, "test", "?") if on_test_thread else "fx:" + name,
+                            "via" if is_via else "param:" + name, True)
+
+            if is_via:
+                def fn(**kw):
+                    received(kw)
+                    return kw[meta["params"][0]]
+            elif meta["pt"] and meta["gen"]:
+                def fn(**kw):
+                    received(kw)
+                    inst = create(name, kw)
                     yield inst
                     teardown(inst)
+                return lcc.fixture(scope=meta["scope"], per_thread=True)(_mkgen(name, meta["params"], fn))
+            elif meta["pt"]:
+                def fn(**kw):
+                    received(kw)
+                    return create(name, kw)
             else:
-                def fn(fx=fx):
-                    return create(fx)
-            f = _mkfunc(fx, [], fn)
-            fixture_funcs.append(lcc.fixture(scope=scope, per_thread=True)(f))
+                def fn(**kw):
+                    received(kw)
+                    return plain(name, kw)
+            return lcc.fixture(scope=meta["scope"], per_thread=meta["pt"])(_mkfunc(name, meta["params"], fn))
 
-            def via(fx=fx, **kw):
-                v = kw[fx]
-                rec("use", key_of(fx), ident(v), getattr(cur, "test", "?"), "via", True)
-                return v
-            fixture_funcs.append(lcc.fixture(scope="test")(_mkfunc("via_" + fx, [fx], via)))
+        fixture_funcs = [make_fixture(name) for name in info]
+
+        def nested(v, seen):
+            """per-thread instances reachable through the parameters the value was built from"""
+            if not isinstance(v, Inst) or id(v) in seen:
+                return
+            seen.add(id(v))
+            for w in v.params.values():
+                if isinstance(w, Inst):
+                    if w.pt:
+                        yield w
+                    yield from nested(w, seen)
 
         # ---- suites ------------------------------------------------------------------------------
         barriers = {}
@@ -680,17 +1058,27 @@ class Run(C.Stream):
         for si, sdesc in enumerate(case["suites"]):
             suite = Suite(None, "s%d" % si, "suite %d" % si)
             suite.add_hook("setup_test", setup_test)
+            if sdesc.get("setup_uses"):
+                def setup_suite_impl(sname="s%d" % si, **kw):
+                    for p, v in kw.items():
+                        if isinstance(v, Inst) and v.pt:
+                            rec("use", v.key, v.n, "suite-setup:" + sname, "suite-setup", True)
+                suite.add_hook("setup_suite", _mkfunc("setup_suite", [sdesc["setup_uses"]], setup_suite_impl))
             tests = []
             for pi, phase in enumerate(sdesc["phases"]):
                 size = min(len(phase), nb)
                 bar = threading.Barrier(size, timeout=(6.0 if chained else 0.25)) if size >= 2 else None
                 for ti, tdesc in enumerate(phase):
-                    args = [("via_" + fx if via else fx) for fx, via in tdesc["uses"]]
+                    args = [("via_" + fx if via and info[fx]["pt"] else fx) for fx, via in tdesc["uses"]]
 
                     def body(uses=tdesc["uses"], **kw):
                         for fx, via in uses:
+                            via = via and info[fx]["pt"]
                             v = kw["via_" + fx if via else fx]
-                            rec("use", key_of(fx), ident(v), cur.test, "body", not via)
+                            if info[fx]["pt"]:
+                                rec("use", key_of(fx), ident(v), cur.test, "body", not via)
+                            for w in nested(v, set()):
+                                rec("use", key_of(w.fx), w.n, cur.test, "nested", False)
                         rec("test_end", cur.test)
                     name = "t%d_%d_%d" % (si, pi, ti)
                     test = Test(name, name, _mkfunc(name, args, body))
@@ -718,34 +1106,51 @@ class Run(C.Stream):
                     rec("session_end")
                 return AsyncEventManager.fire(self, event)
 
-        registry = FixtureRegistry()
+        # ---- the normal validation path: PreparedProject.create (policy, test dependencies, fixture registry with the
+        #      builtin fixtures, check_dependencies, check_fixtures_in_suites) --------------------------------------
+        fixtures = []
         for f in fixture_funcs:
-            registry.add_fixtures(load_fixtures_from_func(f))
-        resolve_tests_dependencies(top, top)
+            fixtures += load_fixtures_from_func(f)
         report_dir = tempfile.mkdtemp(prefix="lccverif-c15-")
-        out = {}
 
-        def go():
-            try:
-                session = Session.create(RecEM.load(), [], report_dir, None, nb_threads=nb)
-                out["result"] = "returned:%s" % runner.run_suites(top, registry, session, nb_threads=nb)
-            except BaseException as e:  # classified
-                out["result"] = "raised:" + type(e).__name__
-                out["message"] = str(e)[-300:]
+        class GeneratedProject(Project):
+            def load_suites(self):
+                return top
 
-        th = threading.Thread(target=go, daemon=True)
+            def load_fixtures(self):
+                return fixtures
+
         try:
+            try:
+                prepared = PreparedProject.create(GeneratedProject(report_dir))
+            except ValidationError as e:
+                return {"trace": [], "result": "rejected", "verdict": validation_verdict(e), "message": str(e)[:300],
+                        "notes": [], "threads": 0}
+            registry = prepared.fixture_registry
+            out = {}
+
+            def go():
+                try:
+                    session = Session.create(RecEM.load(), [], report_dir, None, nb_threads=nb)
+                    out["result"] = "returned:%s" % runner.run_suites(top, registry, session, nb_threads=nb)
+                except BaseException as e:  # classified
+                    out["result"] = "raised:" + type(e).__name__
+                    out["message"] = str(e)[-300:]
+
+            th = threading.Thread(target=go, daemon=True)
             th.start()
             th.join(60.0)
             if th.is_alive():
                 raise C.InfraError("C15.run: run_suites still running after 60 s (hang)")
         finally:
             shutil.rmtree(report_dir, ignore_errors=True)
-        return {"trace": trace, "result": out.get("result"), "notes": sorted(notes), "threads": len(tids)}
+        return {"trace": trace, "result": out.get("result"), "verdict": "accepted", "message": out.get("message"),
+                "notes": sorted(notes), "threads": len(tids)}
 
     # ---- the property, on observations only -------------------------------------------------------
     def oracle(self, case, obs):
         fails = []
+        info = fxinfo(case)
         tr = obs["trace"]
         creator, inst_key, created = {}, {}, {}
         uses = {}          # (key, thread) -> [object]
@@ -764,7 +1169,7 @@ class Run(C.Stream):
                 last_use[o] = max(last_use.get(o, 0), i, test_end.get(ev[4], 0))    # in use until the consuming test's body ends
                 if creator.get(o) != t:
                     fails.append(C.Failure("C15/run/instance-handed-to-foreign-thread",
-                                           f"{ev[4]} on thread {t} got instance {o} of {key} created on thread {creator.get(o)}"))
+                                           f"{ev[4]} ({ev[5]}) on thread {t} got instance {o} of {key} created on thread {creator.get(o)}"))
                 elif inst_key.get(o) != key:
                     fails.append(C.Failure("C15/run/instance-of-another-scope-instance",
                                            f"{ev[4]} consumed {key} but got instance {o} created for {inst_key.get(o)}"))
@@ -787,7 +1192,7 @@ class Run(C.Stream):
                                        f"consumers of {key} on thread {t} saw different instances {os_}"))
         for o, key in sorted(inst_key.items()):
             fx, scope = key.split("@")
-            if not FIXTURES[fx][1]:
+            if not info[fx]["gen"]:
                 continue            # a plain fixture has no teardown code: nothing to observe
             n = len(td_at.get(o, []))
             if n == 0:
@@ -808,7 +1213,12 @@ class Run(C.Stream):
                                        f"instance {o} of {key} torn down at {td_at[o][0]}, after its scope ended at {end}"))
             # no end event (the run raised before TestSessionEnd): the upper bound cannot be observed; whether the run
             # stays well-formed is C01/C07's question, not C15's
-        return fails
+        seen, out = set(), []
+        for f in fails:
+            if f.signature not in seen:
+                seen.add(f.signature)
+                out.append(f)
+        return out
 
     # ---- the model: one factory instance per (fixture, scope instance) ----------------------------------
     def _project(self, obs):
@@ -860,11 +1270,16 @@ class Run(C.Stream):
 
     def request(self, case, obs):
         return {"multi": [{"threads": nt, "nobj": no, "objects": snap, "implicit_td": True, "trace": tr}
-                          for _, tr, nt, no, snap in self._project(obs)]}
+                          for _, tr, nt, no, snap in self._project(obs)],
+                "validate": {"decls": self._decls(case), "suites": self._suite_shapes(case)}}
 
     def compare(self, case, obs, ans):
         if "error" in ans:
             return "model error: " + ans["error"]
+        # validation: the model of check_dependencies / check_fixtures_in_suites predicts what PreparedProject.create said
+        mv = (ans.get("validate") or {}).get("verdict")
+        if mv != obs.get("verdict"):
+            return f"validation: the model says {mv!r}, PreparedProject.create said {obs.get('verdict')!r} ({obs.get('message')})"
         proj = self._project(obs)
         if len(ans["multi"]) != len(proj):
             return "model answered %d factories, %d observed" % (len(ans["multi"]), len(proj))
@@ -884,15 +1299,30 @@ class Run(C.Stream):
         return n_use, max([len(v) for v in per_key.values()] or [0])
 
     def nontrivial(self, case, obs):
+        if obs["result"] == "rejected":
+            # a forbidden dependency shape, refused by the real validation as the model predicts
+            return bool(case.get("extra")) or any(s.get("setup_uses") for s in case["suites"])
         n_use, width = self._shape(obs)
         return n_use >= 2 and width >= 2 and "barrier-broken" not in obs["notes"]
 
     def features(self, case, obs):
         n_use, width = self._shape(obs)
+        info = fxinfo(case)
         f = ["nb_threads=%d" % case["nb_threads"], "mode=" + case["mode"], "suites=%d" % len(case["suites"]),
-             "workers-sharing-a-fixture=%d" % width, "result=" + str(obs["result"])]
+             "workers-sharing-a-fixture=%d" % width, "result=" + str(obs["result"]),
+             "validation=" + str(obs.get("verdict")).split(":")[0]]
         for fx in case["fixtures"]:
             f.append("fixture:%s-%s" % (FIXTURES[fx][0], "generator" if FIXTURES[fx][1] else "plain"))
+        for d in case.get("extra") or []:
+            for p in d["params"]:
+                dep = info.get(p, {})
+                f.append("dep:%s%s-on-%s%s" % ("pt-" if d["per_thread"] else "", d["scope"], "pt-" if dep.get("pt") else "", dep.get("scope")))
+        if any(s.get("setup_uses") for s in case["suites"]):
+            f.append("setup_suite-takes-a-fixture")
+        if any(ev[0] == "use" and str(ev[5]).startswith("param:") for ev in obs["trace"]):
+            f.append("per-thread-instance-received-as-fixture-parameter")
+        if any(ev[0] == "use" and ev[5] == "nested" for ev in obs["trace"]):
+            f.append("per-thread-instance-reached-through-another-fixture")
         if any(s["nested"] for s in case["suites"]):
             f.append("nested-suite")
         if any(via for s in case["suites"] for p in s["phases"] for t in p for _, via in t["uses"]):
@@ -914,11 +1344,33 @@ class Run(C.Stream):
         return sorted(set(f))
 
     def shrink(self, case):
+        import copy
         for key in ("td_raise", "raise_setup"):
             if case.get(key):
                 c = dict(case)
                 c[key] = None
                 yield c
+        # drop a declared fixture nobody refers to any more / a use of an extra fixture / a suite's setup_suite argument
+        extra = case.get("extra") or []
+        referenced = {p for d in extra for p in d["params"]} | {fx for s in case["suites"] for ph in s["phases"] for t in ph for fx, _ in t["uses"]} \
+            | {s.get("setup_uses") for s in case["suites"]}
+        for i, d in enumerate(extra):
+            if d["name"] not in referenced:
+                c = copy.deepcopy(case)
+                del c["extra"][i]
+                yield c
+        for si, s in enumerate(case["suites"]):
+            if s.get("setup_uses"):
+                c = copy.deepcopy(case)
+                c["suites"][si].pop("setup_uses")
+                yield c
+            for pi, ph in enumerate(s["phases"]):
+                for ti, t in enumerate(ph):
+                    if len(t["uses"]) > 1:
+                        for ui in range(len(t["uses"])):
+                            c = copy.deepcopy(case)
+                            del c["suites"][si]["phases"][pi][ti]["uses"][ui]
+                            yield c
         ss = case["suites"]
         if len(ss) > 1:
             for i in range(len(ss)):
